@@ -32,7 +32,22 @@ ProbeVecs ==
      Probe("ReadLeaseSet2", LS2W, LS2R.h.d.consumed, 4, "s", 600, << >>, "ls2"),
      Probe("ReadMetaLeaseSet", MetaW, LS2R.h.d.consumed, 4, "s", 600, << >>, "meta"),
      Probe("ReadEncryptedLeaseSet", ELSW, 2 + SigPubLen(11), 4, "s", 600, << >>, "els") >>
-Vecs == ExtremaVecs \o ProbeVecs
+\* absolute instants at the ends of the wire range: published + expires beyond 2^32 s (year 2106, certainly still ahead) must not wrap into the
+\* past; published + expires in 1970 is certainly over.  expect: what IsExpired has to answer, decided here from the exact (limb) sum.
+AbsProbe(fn, w, off, pub4, exp2, cls) ==
+  LET sum == AddBE(pub4, exp2)            \* exact, may need 5 bytes
+      beyond == Len(Norm(sum)) > 4 \/ ~LtBE(Norm(sum), << 255, 255, 0, 0 >>)
+      early == LtBE(Norm(sum), << 1, 0, 0, 0 >>) IN
+  [ops |-> << [op |-> "ExpiryProbe", fn |-> fn, in |-> w, off |-> off, width |-> 4, unit |-> "s", minus |-> 0, delta |-> 0, abs |-> pub4,
+               off2 |-> off + 4, abs2 |-> exp2, expect |-> (IF beyond THEN "future" ELSE IF early THEN "past" ELSE "unknown"), cls |-> cls] >>]
+AbsPairs == << << << 255, 255, 255, 255 >>, << 0, 1 >> >>, << << 255, 255, 255, 255 >>, << 255, 255 >> >>, << << 255, 255, 0, 1 >>, << 255, 255 >> >>,
+              << << 255, 255, 255, 0 >>, << 1, 0 >> >>, << << 255, 255, 255, 254 >>, << 0, 1 >> >>, << << 0, 0, 0, 0 >>, << 0, 1 >> >>, << << 0, 0, 0, 1 >>, << 255, 255 >> >>,
+              << << 0, 255, 255, 255 >>, << 0, 1 >> >> >>
+AbsVecs ==
+  Concat(SeqMap(LAMBDA p : << AbsProbe("ReadLeaseSet2", LS2W, LS2R.h.d.consumed, p[1], p[2], "ls2-abs"),
+                              AbsProbe("ReadMetaLeaseSet", MetaW, LS2R.h.d.consumed, p[1], p[2], "meta-abs"),
+                              AbsProbe("ReadEncryptedLeaseSet", ELSW, 2 + SigPubLen(11), p[1], p[2], "els-abs") >>, AbsPairs))
+Vecs == ExtremaVecs \o ProbeVecs \o AbsVecs
 VARIABLE done
 Init == done = FALSE
 Next == ~done /\ ndJsonSerialize(OutFile, Vecs) /\ PrintT(<< "GENERATED", Len(Vecs) >>) /\ done' = TRUE
